@@ -94,6 +94,13 @@ class _Handle:
         # PyTables lists the children of a group in alphanumerically sorted order of their names
         return [self.nodes[k] for k in sorted(self.nodes)]
 
+    def iter_nodes(self, where='/', classname=None):
+        # same order as list_nodes (alphanumerically sorted names)
+        return iter(self.list_nodes(where))
+
+    def walk_nodes(self, where='/', classname=None):
+        return iter(self.list_nodes(where))
+
     def get_node(self, where='/', name=None):
         if name is None:
             name = where.lstrip('/')
